@@ -741,6 +741,20 @@ impl Agg {
 fn main_check(ctx: &Ctx) -> Outcome {
     std::panic::set_hook(Box::new(|_| {}));
     let mut out = Outcome::default();
+    // the functions under test must not consult the environment: a few representative inputs under a cleared and two
+    // hostile settings of the colour-related variables (before any worker thread exists)
+    fn env_digest() -> Vec<String> {
+        { use anstyle::*; let styles = [Style::new(), Style::new().bold(), AnsiColor::Red.on(AnsiColor::Blue).underline(), Style::new().fg_color(Some(Ansi256Color(200).into())).bg_color(Some(RgbColor(1, 2, 3).into())).underline_color(Some(AnsiColor::BrightGreen.into())).effects(Effects::ITALIC | Effects::CURLY_UNDERLINE)]; styles.iter().map(|s| { let mut w = Vec::new(); let _ = s.write_to(&mut w); let _ = s.write_reset_to(&mut w); format!("{s}|{s:#}|{}|{}|{}", s.render(), s.render_reset(), String::from_utf8_lossy(&w)) }).collect::<Vec<String>>() }
+    }
+    if let Err(m) = vexplore::util::env_independence(env_digest) {
+        out.findings.push(Finding {
+            system: "Style rendering".into(),
+            clause: "environment-dependence".into(),
+            case: vec!["representative inputs".into()],
+            message: m.chars().take(900).collect(),
+            replay: serde_json::json!({"kind":"env"}),
+        });
+    }
     let thorough = !ctx.quick();
     let agg = Mutex::new(Agg::default());
     let evals = AtomicU64::new(0);
